@@ -218,6 +218,31 @@ func (t *c19Task) run(op c19Op, sh *c19Shared) (res string) {
 		err := cs.InterpolateMatrixPermutation(t.perm)
 		b, _ := json.Marshal(cs)
 		return fmt.Sprintf("matrix err=%v %s", err != nil, hashBytes(b))
+	case "parse-bad":
+		// a document that fails inside a mapping (a null key, a non-scalar key, a bad nested value): it fails, and
+		// leaves nothing behind for anybody else
+		doc := []string{"steps:\n  - command: a\n    env:\n      GOOD: 1\n      ~: x\n", "steps:\n  - group: g\n    steps:\n      - command: b\n        [1, 2]: y\n", "env:\n  A: b\n  ? {c: d}\n  : e\nsteps: []\n"}[op.arg%3]
+		_, err := pipeline.Parse(strings.NewReader(doc))
+		return fmt.Sprintf("parse-bad %d err=%v", op.arg%3, err != nil && !warning.Is(err))
+	case "parse-merged":
+		// merges at several depths, with key names that other documents also use: every merged key must arrive
+		doc := "tmpl: &t\n  command: from-template\n  label: L\n  env: &e\n    GOOD: \"1\"\n    A: b\nsteps:\n  - <<: *t\n  - group: g\n    steps:\n      - <<: *t\n        env:\n          <<: *e\n          MORE: x\n      - group: inner\n        steps:\n          - <<: *t\n            key: deep\n"
+		pl, err := pipeline.Parse(strings.NewReader(doc))
+		if pl == nil {
+			return fmt.Sprintf("parse-merged failed: %v", err)
+		}
+		n, envs := 0, 0
+		walkCommandSteps(pl.Steps, func(cs *pipeline.CommandStep, d int) {
+			if cs.Command == "from-template" && cs.Label == "L" && cs.Env["GOOD"] == "1" && cs.Env["A"] == "b" {
+				n++
+			}
+			envs += len(cs.Env)
+		}, 0)
+		if n != 3 || envs != 7 {
+			b, _ := json.Marshal(pl)
+			return fmt.Sprintf("SHARED-STATE: a document with three merged steps parsed into %d complete ones (%d env entries, want 7): %s", n, envs, b)
+		}
+		return "parse-merged ok"
 	case "keygen":
 		// key generation from several callers (jwkutil is in C18's and C19's scope): outcomes only, never key bytes
 		priv, pub, err := jwkutil.NewKeyPair(fmt.Sprintf("task-%d", t.id), jwa.EdDSA)
@@ -478,6 +503,12 @@ func runC19(c *engine.Ctx) {
 		if sh.pl == nil {
 			return nil
 		}
+		if emptyContainers && sh.pl.Env.Len() == 0 {
+			// an env block that is present but empty (env: {}), or emptied again
+			sh.pl.Env = ordered.NewMap[string, string](0)
+			sh.pl.Env.Set("GONE", "x")
+			sh.pl.Env.Delete("GONE")
+		}
 		sh.penv = sh.pl.Env.ToMap()
 		if err := signature.SignSteps(context.Background(), sh.pl.Steps, sh.kp.priv, sh.repo, signature.WithEnv(sh.penv)); err == nil {
 			walkCommandSteps(sh.pl.Steps, func(cs *pipeline.CommandStep, d int) {
@@ -527,7 +558,7 @@ func runC19(c *engine.Ctx) {
 	if ntasks > 8 && p.Draw(2, "cfg:fewer") == 1 {
 		ntasks = 2 + ntasks%4
 	}
-	private := []string{"interpolate", "json", "yaml", "sign", "verify", "matrix", "ownmap", "ownmap", "keygen", "shuffle-fields"}
+	private := []string{"interpolate", "json", "yaml", "sign", "verify", "matrix", "ownmap", "ownmap", "keygen", "shuffle-fields", "parse-bad", "parse-merged"}
 	shared := []string{"sh.get", "sh.range", "sh.equal", "sh.unmarshal", "sh.tomap", "sh.tomaprec", "sh.mapjson", "sh.mapyaml", "sh.pljson", "sh.plyaml", "sh.fullsource", "sh.verify", "sh.sign", "sh.wverify", "sh.wsign"}
 	mode := p.Draw(3, "cfg:mix") // 0 mixed, 1 mostly shared, 2 mostly private
 	coldOp := c19Op{}
